@@ -1,5 +1,5 @@
 (* C09 — a sealed server signs nothing; only the right passphrase unseals it, once. *)
-From KM Require Import Base.Bytes Model.Seal Proofs.Seal.
+From KM Require Import Base.Bytes Model.Seal Proofs.Seal Model.SealLife Proofs.SealLife.
 Open Scope N_scope.
 
 (* While the signer is absent, whatever sequence of primitives a handler reaches on whatever
@@ -329,3 +329,81 @@ Example c09_observation_predicate_flags :
   seq_violation ex_cfg true [admin_inj (Some [120])] [(200, 200, (true, true, 2%nat, 3%nat, 1%nat, true))] = 2 /\
   seq_violation ex_cfg true [admin_inj (Some [112; 119])] [(200, 200, (true, true, 2%nat, 3%nat, 1%nat, true))] = 0.
 Proof. vm_compute. repeat split; reflexivity. Qed.
+
+(* ------------------------------------------------------------------ the readiness probe as a request *)
+(* For EVERY state and EVERY shape of the probe (method, query string with any parameter names and values,
+   Accept header): the answer is 200 exactly when the signer is present (and the path is the registered one);
+   while the signer is absent no probe whatsoever is answered 200; the answer is 200, 503 or 404. *)
+Theorem c09_readyz_iff_unsealed : forall s p,
+  (readyz_probe s p = 200 <-> (signer s <> None /\ p_slash p = false)) /\
+  (signer s = None -> readyz_probe s p <> 200) /\
+  (readyz_probe s p = 200 \/ readyz_probe s p = 503 \/ readyz_probe s p = 404).
+Proof. exact readyz_probe_iff. Qed.
+
+(* the request is not an input: two probes for the same path are answered alike *)
+Theorem c09_readyz_request_independent : forall s p p',
+  p_slash p = p_slash p' -> readyz_probe s p = readyz_probe s p'.
+Proof. exact readyz_probe_request_independent. Qed.
+
+(* on every state reachable by injections from the sealed start: a probe answered 200 means the signer of the key
+   file is loaded (with c09_only_right_pass: some injection carried the passphrase over a verified chain) *)
+Theorem c09_readyz_reachable : forall c l p,
+  let s := inject_all c (sealed_init c) l in
+  readyz_probe s p = 200 -> signer s = Some (main_key c).
+Proof. exact readyz_probe_reachable. Qed.
+
+(* the predicate the case file evaluates on OBSERVED probes is never true of the model *)
+Theorem c09_probe_predicate_sound : forall s p, probe_violates (is_some (signer s)) (readyz_probe s p) = false.
+Proof. exact probe_predicate_sound. Qed.
+
+(* NOT the code: a handler that writes a line per check before the status line when the query carries one of some
+   parameter names answers 200 on a sealed state *)
+Theorem c09_readyz_chatty_refuted :
+  exists (c : cfg) (p : probe),
+    let s := sealed_init c in
+    signer s = None /\ readyz_probe_chatty [[118; 101; 114; 98; 111; 115; 101]] s p = 200 /\ readyz_probe s p = 503 /\
+    probe_violates (is_some (signer s)) (readyz_probe_chatty [[118; 101; 114; 98; 111; 115; 101]] s p) = true.
+Proof. exact chatty_refuted. Qed.
+
+(* ------------------------------------------------------------------ life cycles across restarts *)
+(* After ANY earlier runs on the data directory (any key files, any injections, the directory kept or emptied before
+   any start) and for ANY content `d` the directory had before the first of them: the state of the present run is
+   the same for every history and every disk (it is a function of the key files decrypted NOW and of this run's
+   injections); its CA certificates are those of exactly the signers loaded now, each a key of the present key
+   files; and whatever any handler signs is signed with a key that has a CA certificate and is published. *)
+Theorem c09_published_across_restarts : forall (d : disk) (before : list cycle) (last : cycle),
+  let c := cy_cfg last in
+  let s := life d before last in
+  (forall d' before', life d' before' last = s) /\
+  ca_ders s = loaded_keys s /\
+  (forall k, In k (ca_ders s) -> k = main_key c \/ exists pe r, ed_file c = Some (pe, k, r)) /\
+  (forall (p : list hstep) kd k ck, In (kd, k, ck) (snd (run_handler s p [])) -> In k (ca_ders s) /\ In k (pubkeys s)).
+Proof. exact published_across_restarts. Qed.
+
+(* NOT the code (CA certificate kept in the data directory per KIND of key and reused unchecked): run with key 1,
+   rotate to key 11 of the same kind on the kept directory: signer 11, published CA certificate of key 1, a
+   certificate signed with 11 which is not among the CA certificates; the code publishes 11; the variant agrees with
+   the code on an emptied directory and without a rotation *)
+Theorem c09_kept_ca_refuted :
+  let s := life_kept 0 [] [run_of cfg_a false] (run_of cfg_b false) in
+  signer s = Some 11 /\ ca_ders s = [1] /\ pubkeys s = [11] /\
+  In (1, 11, false) (snd (run_handler s [HGuard; HSign 1 false false] [])) /\ ~ In 11 (ca_ders s) /\
+  ca_ders (life [] [run_of cfg_a false] (run_of cfg_b false)) = [11] /\
+  ca_ders (life_kept 0 [] [run_of cfg_a false] (run_of cfg_b true)) = [11] /\
+  ca_ders (life_kept 0 [] [run_of cfg_a false] (run_of cfg_a false)) = [1].
+Proof. exact kept_ca_refuted. Qed.
+
+(* every published key is a pre-listed one or has a CA certificate (for every configuration and injection list) *)
+Theorem c09_pubkeys_listed_or_loaded : forall c l,
+  let s := inject_all c (sealed_init c) l in
+  forall k, In k (pubkeys s) -> In k (extra_pubkeys c) \/ In k (ca_ders s).
+Proof. exact pubkeys_listed_or_loaded. Qed.
+
+(* the predicate the case file evaluates on OBSERVED runs (a key of /public/sshca without CA certificate, or the
+   requested X.509 certificate not issued) is never true of the model's own observation, for every history and
+   disk, when keymaster_public_keys_filename lists nothing (as in the life cases) *)
+Theorem c09_life_predicate_sound : forall d before last,
+  extra_pubkeys (cy_cfg last) = [] ->
+  let s := life d before last in
+  life_case_violates (is_some (signer s), pubkeys s, ca_ders s, is_some (signer s)) = false.
+Proof. exact life_predicate_sound. Qed.
